@@ -539,45 +539,52 @@ func (c *Client) WriteMsg(b []byte) error {
 	return c.ss.handle.WriteMsg(b)
 }
 
-// ReadMsg reads a single message. If b is too short to hold the message, it is
-// buffered and ErrBufOverflow is returned.
-func (c *Client) ReadMsg(b []byte) (n int, err error) {
+// readHandle returns the Handle to read from, completing the handshake first
+// if necessary. Once Close has started it waits for Close to finish and returns
+// the closed Handle, so that messages received before Close are still returned
+// before io.EOF, whichever state the reader found.
+func (c *Client) readHandle() (*Handle, error) {
 	switch c.state.Load() {
 	case clientStateCreated, clientStateHandshaking:
 		if err := c.Handshake(); err != nil {
-			return 0, err
+			if s := c.state.Load(); s != clientStateClosing && s != clientStateClosed {
+				return nil, err
+			}
+			return c.closedHandle()
 		}
 	case clientStateError:
-		return 0, c.err
-	case clientStateClosing:
-		return 0, io.EOF
-	case clientStateClosed:
-		<-c.closeDone
-		if c.ss == nil || c.ss.handle == nil {
-			return 0, io.EOF
-		}
+		return nil, c.err
+	case clientStateClosing, clientStateClosed:
+		return c.closedHandle()
 	}
-	return c.ss.handle.ReadMsg(b)
+	return c.ss.handle, nil
+}
+
+func (c *Client) closedHandle() (*Handle, error) {
+	<-c.closeDone
+	if c.ss == nil || c.ss.handle == nil {
+		return nil, io.EOF
+	}
+	return c.ss.handle, nil
+}
+
+// ReadMsg reads a single message. If b is too short to hold the message, it is
+// buffered and ErrBufOverflow is returned.
+func (c *Client) ReadMsg(b []byte) (n int, err error) {
+	h, err := c.readHandle()
+	if err != nil {
+		return 0, err
+	}
+	return h.ReadMsg(b)
 }
 
 // Read implements net.Conn.
 func (c *Client) Read(b []byte) (n int, err error) {
-	switch c.state.Load() {
-	case clientStateCreated, clientStateHandshaking:
-		if err := c.Handshake(); err != nil {
-			return 0, err
-		}
-	case clientStateError:
-		return 0, c.err
-	case clientStateClosing:
-		return 0, io.EOF
-	case clientStateClosed:
-		<-c.closeDone
-		if c.ss == nil || c.ss.handle == nil {
-			return 0, io.EOF
-		}
+	h, err := c.readHandle()
+	if err != nil {
+		return 0, err
 	}
-	return c.ss.handle.Read(b)
+	return h.Read(b)
 }
 
 // LocalAddr returns the underlying UDP address.
